@@ -1,8 +1,8 @@
 package main
 
 import (
-	"golang.org/x/tools/go/ssa"
 	"fmt"
+	"golang.org/x/tools/go/ssa"
 	"os"
 	"strings"
 )
